@@ -181,6 +181,19 @@ def _match(exp, out, env, W):
         if all(r is False for r in rs):
             return False
         return None
+    if out[0] == "opaque" and kind == "ret_call":
+        labels = []
+
+        def coll0(t_):
+            if isinstance(t_, tuple):
+                if t_ and t_[0] == "C":
+                    labels.append(t_[1])
+                for x in t_:
+                    coll0(x)
+        coll0(out[1])
+        if not labels:
+            return None
+        return any(exp[1] in l for l in labels) and not any(bad in l for bad in exp[2:] for l in labels)
     if out[0] == "opaque" or out[0] == "unknown":
         return None
     if kind == "panic":
@@ -222,6 +235,25 @@ def _match(exp, out, env, W):
                     return False
             return res
         return val == exp[1]
+    if kind == "ret_call":
+        # the returned value is (a projection / constructor around) a call whose label contains the given text
+        v = out[2][1]
+        labels = []
+
+        def coll(t_):
+            if isinstance(t_, tuple):
+                if t_ and t_[0] == "C":
+                    labels.append(t_[1])
+                for x in t_:
+                    coll(x)
+        coll(v)
+        if not labels:
+            return False
+        return any(exp[1] in l for l in labels) and not any(bad in l for bad in exp[2:] for l in labels)
+    if kind == "pred":
+        if val is guards.OPAQUE:
+            return None
+        return bool(exp[1](val))
     if kind in ("errv", "okv"):
         if val is guards.OPAQUE:
             return None
@@ -248,12 +280,12 @@ def _match(exp, out, env, W):
     raise ValueError(exp)
 
 
-def g_row(K, prop, fid, reps, tag=""):
+def g_row(K, prop, fid, reps, tag="", inst=None, cparams=None):
     """reps: list of (name, env_fn(W) -> {param: value}, expect_fn(W, env) -> expectation).
 
     One obligation per representative; it must hold in every world."""
     F = K.F
-    root = F.root_of(fid)
+    root = F.root_of(fid) if inst is None else inst
     if root is None:
         return [missing(prop, "G", K, fid)]
     loc = F.loc(F.instances[root]["d"])
@@ -272,7 +304,7 @@ def g_row(K, prop, fid, reps, tag=""):
         status, detail = PROVED, ""
         sample = None
         for n in WORLDS:
-            W = guards.World(n)
+            W = guards.World(n, cparams)
             env = env_fn(W)
             exp = exp_fn(W, env)
             o, path = guards.outcome(tree, env, W)
